@@ -19,6 +19,9 @@ TRUSTED_BASE = [
     "hand-written Lean model of the Rust code, tied to /repo by tools/extract.py (constants regenerated every run) and by the behavioural correspondence of this run (driver vs real code on the same op lines)",
     "Lean compiler for the driver executable; rustc monomorphisation (hook's Small<N> vectors and __m128i/__m256i share the generic source)",
     "documented lane semantics of the SIMD intrinsics and of u32/u64 trailing_zeros/leading_zeros/count_ones",
+    "the op generators (tools/gens.py) and the executor (harness/): what the correspondence can see is bounded by them; they are themselves exercised by seeded source mutations (seeded/, tools/mechmut.py)",
+    "cfg-rewritten copies of /repo for targets other than this host (tools/emulate: plain-Rust NEON / simd128 intrinsics, no-vector-module target) and feature builds (no std, no alloc, +avx2, no debug assertions)",
+    "real-code-only ops (no model counterpart) rely on independent oracles: naive / Knuth-Morris-Pratt search, greedy match lists, analytic answers for >4 GiB inputs, the property itself for impure rankers; wall-clock bounds (C13) are tests, not proofs",
 ]
 
 
